@@ -88,7 +88,12 @@ Watchdog::~Watchdog() {
 inline void
 Watchdog::reschedule() {
   PPL_VERIF_WD_YIELD(80);
+  // Do not go through set_timer(): `last_time_requested' must keep
+  // recording the interval the interrupted code is accounting for.
+  const Implementation::Watchdog::Time saved_last_time_requested
+    = last_time_requested;
   set_timer(reschedule_time);
+  last_time_requested = saved_last_time_requested;
 }
 
 #else // !PPL_HAVE_DECL_SETITIMER !! !PPL_HAVE_DECL_SIGACTION
